@@ -204,6 +204,8 @@ def c19_generate(name, kw, work):
 def bad_key(msg):
     """vector failures are "<type>/<op>", geometry failures "<query>/<handle>": one signature per operation / query"""
     a, b = msg.split('/', 1)
+    if len(a) == 2 and set(a) <= set('iufd'):
+        return ('mixed-scalar', b)                      # kind X: "<left><right>/<op>"
     return ('vector', b) if a in ('i', 'u', 'f', 'd', 'm') else ('geometry', a)
 
 
@@ -348,8 +350,8 @@ def run_c19(tier, seed, replay=None):
 # =====================================================================  C20
 MESHES = dict(quick=['tet1', 'tetfan', 'polyfan', 'polydel', 'polymix', 'hex1', 'hexblock221'],
               thorough=['tet1', 'tetfan', 'polyfan', 'polydel', 'polymix', 'hex1', 'hexblock221', 'hexblock222', 'hexblock321'])
-GEN = dict(quick=dict(ThreadCounts=[2, 3, 4, 8, 16], SameCounts=[2, 4, 16], RndCases=2, RndLen=200, Reps=3, RepsBig=20),
-           thorough=dict(ThreadCounts=[2, 3, 4, 5, 6, 8, 12, 16], SameCounts=[2, 3, 4, 8, 16], RndCases=6, RndLen=400, Reps=8, RepsBig=50))
+GEN = dict(quick=dict(ThreadCounts=[2, 3, 4, 8, 16], SameCounts=[2, 4, 16], LockCounts=[2, 4], RndCases=2, RndLen=200, Reps=3, RepsBig=20),
+           thorough=dict(ThreadCounts=[2, 3, 4, 5, 6, 8, 12, 16], SameCounts=[2, 3, 4, 8, 16], LockCounts=[2, 3, 4, 8], RndCases=6, RndLen=400, Reps=8, RepsBig=50))
 # (name, readers, hazard, program length, query set); hazards are negative controls: TLC must reject them
 MC = dict(quick=[('r2', 'R2', 'none', 2, 'MCQ6'), ('r3', 'R3', 'none', 2, 'MCQ3'), ('r4', 'R4', 'none', 1, 'MCQ4'),
                  ('hz-shared', 'R2', 'shared_scratch', 1, 'MCQ4'), ('hz-lazy', 'R2', 'lazy_cache', 1, 'MCQ4')],
@@ -377,7 +379,7 @@ def q_line(q):
 def c20_script(mesh, alpha, cases):
     out = ['M ' + mesh] + [q_line(q) for q in alpha]
     for c in cases:
-        out.append('T %d %d %d' % (c['case'], c['threads'], c['reps']))
+        out.append('T %d %d %d %s' % (c['case'], c['threads'], c['reps'], c.get('mode', 'free')))
         out += ['P %d %s' % (len(p), ' '.join(map(str, p))) for p in c['progs']]
     return '\n'.join(out) + '\n'
 
@@ -478,8 +480,8 @@ def run_c20(tier, seed, replay=None):
                     fo.write(r.stdout.splitlines()[0] + '\n')
             # 2. TLC derives the alphabet of every mesh and the programs
             g = GEN[tier]
-            cfg = ('SPECIFICATION Spec\nCONSTANTS\n  Seed = %d\n  ThreadCounts = %s\n  SameCounts = %s\n  RndCases = %d\n  RndLen = %d\n  Reps = %d\n  RepsBig = %d\n'
-                   'INVARIANT EmitCase\nCHECK_DEADLOCK FALSE\n' % (seed % 100000, vlib.tla_set(g['ThreadCounts']), vlib.tla_set(g['SameCounts']),
+            cfg = ('SPECIFICATION Spec\nCONSTANTS\n  Seed = %d\n  ThreadCounts = %s\n  SameCounts = %s\n  LockCounts = %s\n  RndCases = %d\n  RndLen = %d\n  Reps = %d\n  RepsBig = %d\n'
+                   'INVARIANT EmitCase\nCHECK_DEADLOCK FALSE\n' % (seed % 100000, vlib.tla_set(g['ThreadCounts']), vlib.tla_set(g['SameCounts']), vlib.tla_set(g['LockCounts']),
                                                                      g['RndCases'], g['RndLen'], g['Reps'], g['RepsBig']))
             rc, out, wall = tlc('OVMReadersGen.tla', cfg, work, 'gen', workers=2, env=dict(MESHES=mfile), heap='6g')
             if rc != 0:
